@@ -83,6 +83,8 @@ pub struct WriteCfg {
 	pub approx_block_size: Option<u32>,
 	pub sync: [u8; 16],
 	pub user_meta: Vec<(String, Vec<u8>)>,
+	/// Some: the sink accepts at most schedule[i] bytes on its i-th call; bool = implements write_vectored itself
+	pub sink_schedule: Option<(Vec<usize>, bool)>,
 }
 
 struct MetaMap<'a>(&'a [(String, Vec<u8>)]);
@@ -117,7 +119,12 @@ pub fn build_writer<'c, 's, W: Write>(
 pub fn write_file(schema: &Schema, rs: &RSchema, vals: &[Val], ops: &[Op], wc: &WriteCfg, pres: &Pres) -> Result<Vec<u8>, String> {
 	let mut cfg = SerializerConfig::new(schema);
 	// pre-encode for Push with an independent config
-	let mut w = build_writer(&mut cfg, wc, Vec::new())?;
+	let sink = match &wc.sink_schedule {
+		Some((s, native)) => crate::io::SharedSink::scheduled(s.clone(), *native),
+		None => crate::io::SharedSink::default(),
+	};
+	let shared = sink.buf.clone();
+	let mut w = build_writer(&mut cfg, wc, sink)?;
 	let mut run = || -> Result<(), String> {
 		for op in ops {
 			match op {
@@ -144,7 +151,9 @@ pub fn write_file(schema: &Schema, rs: &RSchema, vals: &[Val], ops: &[Op], wc: &
 		std::mem::forget(w);
 		return Err(e);
 	}
-	w.into_inner().map_err(|e| format!("into_inner: {e}"))
+	w.into_inner().map_err(|e| format!("into_inner: {e}"))?;
+	let out = shared.borrow().clone();
+	Ok(out)
 }
 
 #[derive(Clone, Debug)]
